@@ -3,6 +3,7 @@ import ParryModel.C03.Model
 import ParryModel.C03.Sat
 import ParryModel.C03.Lemmas
 import ParryModel.C03.Theorems2
+import ParryModel.C03.Theorems3
 import Mathlib.Analysis.Convex.Radon
 /-!
 # C03 theorems, part 4: completeness of the FIFTEEN axes for two cuboids (3-D), in general position.
@@ -234,6 +235,90 @@ private theorem prisms_meet_abs (e u1 u2 f v1 v2 t : V3 K) (α1 α2 β1 β2 : K)
       rw [hwx] at Bx; rw [hwy] at By; rw [hwz] at Bz
       linear_combination y1 * v12 + y2 * v22 - mu * fv2 - v2x * Bx - v2y * By - v2z * Bz
     rw [this]; exact hy2
+
+/-! ## Two infinite prisms with parallel axes -/
+
+/-- **Two infinite prisms with parallel axes meet as soon as none of their four face normals separates them**: the
+planar theorem `rect_rect_complete` applied to the cross-sections.  `(e, u1, u2)` is an orthonormal basis (Parseval
+identity `hpar`), `f ∥ e` (`f ⟂ u1, u2`), `(f, v1, v2)` orthonormal.  The terms with `α0`, `β0` vanish. -/
+private theorem prisms_meet_par (e u1 u2 f v1 v2 t : V3 K) (α0 α1 α2 β0 β1 β2 : K)
+    (hα1 : 0 ≤ α1) (hα2 : 0 ≤ α2) (hβ1 : 0 ≤ β1) (hβ2 : 0 ≤ β2) :
+    letI := fieldNum K sq
+    (∀ a b : V3 K, a.dot b = a.dot e * b.dot e + a.dot u1 * b.dot u1 + a.dot u2 * b.dot u2) →
+    f.dot u1 = 0 → f.dot u2 = 0 → f.dot f = 1 →
+    f.dot v1 = 0 → f.dot v2 = 0 → v1.dot v1 = 1 → v2.dot v2 = 1 → v1.dot v2 = 0 →
+    |t.dot u1| ≤ α1 + (β0 * |f.dot u1| + β1 * |v1.dot u1| + β2 * |v2.dot u1|) →
+    |t.dot u2| ≤ α2 + (β0 * |f.dot u2| + β1 * |v1.dot u2| + β2 * |v2.dot u2|) →
+    |t.dot v1| ≤ β1 + (α0 * |v1.dot e| + α1 * |v1.dot u1| + α2 * |v1.dot u2|) →
+    |t.dot v2| ≤ β2 + (α0 * |v2.dot e| + α1 * |v2.dot u1| + α2 * |v2.dot u2|) →
+    ∃ p : V3 K, |p.dot u1| ≤ α1 ∧ |p.dot u2| ≤ α2 ∧ |(p.sub t).dot v1| ≤ β1 ∧ |(p.sub t).dot v2| ≤ β2 := by
+  intro hpar fu1 fu2 ff fv1 fv2 v11 v22 v12 H1 H2 H3 H4
+  have fe2 : @V3.dot K (fieldNum K sq) f e * @V3.dot K (fieldNum K sq) f e = 1 := by
+    have := hpar f f; rw [ff, fu1, fu2] at this; linarith
+  have fe0 : @V3.dot K (fieldNum K sq) f e ≠ 0 := by
+    intro h0; rw [h0] at fe2; simp at fe2
+  have v1e : @V3.dot K (fieldNum K sq) v1 e = 0 := by
+    have := hpar f v1; rw [fv1, fu1, fu2] at this
+    have : @V3.dot K (fieldNum K sq) f e * @V3.dot K (fieldNum K sq) v1 e = 0 := by linarith
+    exact (mul_eq_zero.mp this).resolve_left fe0
+  have v2e : @V3.dot K (fieldNum K sq) v2 e = 0 := by
+    have := hpar f v2; rw [fv2, fu1, fu2] at this
+    have : @V3.dot K (fieldNum K sq) f e * @V3.dot K (fieldNum K sq) v2 e = 0 := by linarith
+    exact (mul_eq_zero.mp this).resolve_left fe0
+  set c := @V3.dot K (fieldNum K sq) v1 u1 with hc
+  set s := @V3.dot K (fieldNum K sq) v1 u2 with hs
+  set a := @V3.dot K (fieldNum K sq) v2 u1 with ha
+  set b := @V3.dot K (fieldNum K sq) v2 u2 with hb
+  set t1 := @V3.dot K (fieldNum K sq) t u1 with ht1
+  set t2 := @V3.dot K (fieldNum K sq) t u2 with ht2
+  have cs : c * c + s * s = 1 := by have := hpar v1 v1; rw [v11, v1e] at this; linarith
+  have ab : a * a + b * b = 1 := by have := hpar v2 v2; rw [v22, v2e] at this; linarith
+  have acbs : c * a + s * b = 0 := by have := hpar v1 v2; rw [v12, v1e, v2e] at this; linarith
+  have tv1 : @V3.dot K (fieldNum K sq) t v1 = c * t1 + s * t2 := by
+    have := hpar t v1; rw [v1e] at this; rw [this]; ring
+  have tv2 : @V3.dot K (fieldNum K sq) t v2 = a * t1 + b * t2 := by
+    have := hpar t v2; rw [v2e] at this; rw [this]; ring
+  set σ := b * c - a * s with hσ
+  have σ2 : σ * σ = 1 := by rw [hσ]; linear_combination (a * a + b * b) * cs + ab - (a * c + b * s) * acbs
+  have ea : a = -(σ * s) := by rw [hσ]; linear_combination c * acbs - a * cs
+  have eb : b = σ * c := by rw [hσ]; linear_combination s * acbs - b * cs
+  have aσ : |σ| = 1 := by
+    rcases mul_self_eq_one_iff.mp σ2 with h | h <;> rw [h] <;> simp
+  have absa : |a| = |s| := by rw [ea, abs_neg, abs_mul, aσ, one_mul]
+  have absb : |b| = |c| := by rw [eb, abs_mul, aσ, one_mul]
+  rw [fu1, abs_zero, mul_zero, zero_add, absa] at H1
+  rw [fu2, abs_zero, mul_zero, zero_add, absb] at H2
+  rw [v1e, abs_zero, mul_zero, zero_add, tv1] at H3
+  rw [v2e, abs_zero, mul_zero, zero_add, tv2, absa, absb] at H4
+  have H4' : |-s * t1 + c * t2| ≤ β2 + (α1 * |s| + α2 * |c|) := by
+    have : a * t1 + b * t2 = σ * (-s * t1 + c * t2) := by rw [ea, eb]; ring
+    rw [this, abs_mul, aσ, one_mul] at H4; exact H4
+  obtain ⟨y1, y2, k1, k2, k3, k4⟩ := rect_rect_complete α1 α2 β1 β2 c s t1 t2 hα1 hα2 hβ1 hβ2 cs H1 H2 H3 H4'
+  have lin : ∀ (w : V3 K), @V3.dot K (fieldNum K sq)
+      (@V3.add K (fieldNum K sq) (@V3.add K (fieldNum K sq) t (@V3.smul K (fieldNum K sq) v1 y1))
+        (@V3.smul K (fieldNum K sq) v2 (σ * y2))) w
+      = @V3.dot K (fieldNum K sq) t w + y1 * @V3.dot K (fieldNum K sq) v1 w
+        + σ * y2 * @V3.dot K (fieldNum K sq) v2 w := by
+    intro w; simp only [V3.dot, V3.add, V3.smul]; ring
+  have lin2 : ∀ (w : V3 K), @V3.dot K (fieldNum K sq) (@V3.sub K (fieldNum K sq)
+      (@V3.add K (fieldNum K sq) (@V3.add K (fieldNum K sq) t (@V3.smul K (fieldNum K sq) v1 y1))
+        (@V3.smul K (fieldNum K sq) v2 (σ * y2))) t) w
+      = y1 * @V3.dot K (fieldNum K sq) v1 w + σ * y2 * @V3.dot K (fieldNum K sq) v2 w := by
+    intro w; simp only [V3.dot, V3.add, V3.sub, V3.smul]; ring
+  have v21 : @V3.dot K (fieldNum K sq) v2 v1 = 0 := by
+    rw [← v12]; simp only [V3.dot]; ring
+  refine ⟨@V3.add K (fieldNum K sq) (@V3.add K (fieldNum K sq) t (@V3.smul K (fieldNum K sq) v1 y1))
+        (@V3.smul K (fieldNum K sq) v2 (σ * y2)), ?_, ?_, ?_, ?_⟩
+  · rw [lin u1, ← ht1, ← hc, ← ha]
+    have : t1 + y1 * c + σ * y2 * a = t1 + (c * y1 - s * y2) := by rw [ea]; linear_combination (-(y2 * s)) * σ2
+    rw [this]; exact k3
+  · rw [lin u2, ← ht2, ← hs, ← hb]
+    have : t2 + y1 * s + σ * y2 * b = t2 + (s * y1 + c * y2) := by rw [eb]; linear_combination (y2 * c) * σ2
+    rw [this]; exact k4
+  · rw [lin2 v1, v11, v21]; simpa using k1
+  · rw [lin2 v2, v12, v22]
+    have : y1 * 0 + σ * y2 * 1 = σ * y2 := by ring
+    rw [this, abs_mul, aσ, one_mul]; exact k2
 
 /-! ## The two cuboids of the model -/
 
@@ -486,6 +571,83 @@ theorem prismsMeet_of_edge (m : Iso3 K) (he1 he2 : V3 K) (k l : Fin 3) (h : Unit
     · rw [invAct_comp sq m p _ h]; exact p3
     · rw [invAct_comp sq m p _ h]; exact p4
 
+private theorem perm3 (g : Fin 3 → K) (k : Fin 3) : g 0 + g 1 + g 2 = g k + g (k + 1) + g (k + 2) := by
+  fin_cases k <;> simp <;> ring
+
+private theorem parseval_bv (k : Fin 3) (a b : V3 K) :
+    letI := fieldNum K sq
+    a.dot b = a.dot (bv k) * b.dot (bv k) + a.dot (bv (k + 1)) * b.dot (bv (k + 1))
+      + a.dot (bv (k + 2)) * b.dot (bv (k + 2)) := by
+  fin_cases k <;> simp [bv, V3.dot] <;> ring
+
+private theorem cross_zero_perp (k : Fin 3) (f : V3 K) :
+    letI := fieldNum K sq
+    ((bv k : V3 K).cross f).dot ((bv k : V3 K).cross f) = 0 → f.dot (bv (k + 1)) = 0 ∧ f.dot (bv (k + 2)) = 0 := by
+  fin_cases k <;> simp [bv, V3.dot, V3.cross] <;> intro h <;> constructor <;>
+    nlinarith [mul_self_nonneg f.x, mul_self_nonneg f.y, mul_self_nonneg f.z]
+
+/-- **Parallel edges**: when `e_k × (pos12·e_l) = 0` the two prisms are parallel and meet as soon as the four face
+normals orthogonal to the common direction do not separate (the planar theorem on the cross-sections). -/
+theorem prismsMeet_of_parallel (m : Iso3 K) (he1 he2 : V3 K) (k l : Fin 3) (h : Unit3 m)
+    (h1 : ∀ k, 0 ≤ comp he1 k) (h2 : ∀ l, 0 ≤ comp he2 l) :
+    letI := fieldNum K sq
+    ((bv k : V3 K).cross (m.rot (bv l))).dot ((bv k : V3 K).cross (m.rot (bv l))) = 0 →
+    FaceA sq he1 he2 m (k + 1) → FaceA sq he1 he2 m (k + 2) →
+    FaceB sq he1 he2 m (l + 1) → FaceB sq he1 he2 m (l + 2) → PrismsMeet sq he1 he2 m k l := by
+  intro hz A1 A2 B1 B2
+  obtain ⟨fu1, fu2⟩ := cross_zero_perp sq k _ hz
+  obtain ⟨l1, l2, l12⟩ := fin3_ne l
+  have dcomm : ∀ a b : V3 K, @V3.dot K (fieldNum K sq) a b = @V3.dot K (fieldNum K sq) b a := by
+    intro a b; simp only [V3.dot]; ring
+  -- face conditions, summed in the order (l, l+1, l+2) resp. (k, k+1, k+2)
+  have convA : ∀ j : Fin 3, FaceA sq he1 he2 m j →
+      |@V3.dot K (fieldNum K sq) m.t (bv j)| ≤ comp he1 j +
+        (comp he2 l * |@V3.dot K (fieldNum K sq) (@Iso3.rot K (fieldNum K sq) m (bv l)) (bv j)|
+         + comp he2 (l + 1) * |@V3.dot K (fieldNum K sq) (@Iso3.rot K (fieldNum K sq) m (bv (l + 1))) (bv j)|
+         + comp he2 (l + 2) * |@V3.dot K (fieldNum K sq) (@Iso3.rot K (fieldNum K sq) m (bv (l + 2))) (bv j)|) := by
+    intro j hj
+    unfold FaceA at hj
+    rw [absDot_comp he2 _ h2, comp_dot sq m.t j] at hj
+    have := perm3 (fun i => comp he2 i * |comp (@Iso3.invRot K (fieldNum K sq) m (bv j)) i|) l
+    rw [this] at hj
+    have cB : ∀ i : Fin 3, comp (@Iso3.invRot K (fieldNum K sq) m (bv j)) i
+        = @V3.dot K (fieldNum K sq) (@Iso3.rot K (fieldNum K sq) m (bv i)) (bv j) := by
+      intro i; rw [comp_dot sq, invRot_dot_rot sq m _ _ h, dcomm]
+    rw [cB, cB, cB] at hj
+    exact hj
+  have convB : ∀ j : Fin 3, FaceB sq he1 he2 m j →
+      |@V3.dot K (fieldNum K sq) m.t (@Iso3.rot K (fieldNum K sq) m (bv j))| ≤ comp he2 j +
+        (comp he1 k * |@V3.dot K (fieldNum K sq) (@Iso3.rot K (fieldNum K sq) m (bv j)) (bv k)|
+         + comp he1 (k + 1) * |@V3.dot K (fieldNum K sq) (@Iso3.rot K (fieldNum K sq) m (bv j)) (bv (k + 1))|
+         + comp he1 (k + 2) * |@V3.dot K (fieldNum K sq) (@Iso3.rot K (fieldNum K sq) m (bv j)) (bv (k + 2))|) := by
+    intro j hj
+    unfold FaceB at hj
+    rw [absDot_comp he1 _ h1] at hj
+    have := perm3 (fun i => comp he1 i * |comp (@Iso3.rot K (fieldNum K sq) m (bv j)) i|) k
+    rw [this, comp_dot sq (@Iso3.rot K (fieldNum K sq) m (bv j)) k,
+      comp_dot sq (@Iso3.rot K (fieldNum K sq) m (bv j)) (k + 1),
+      comp_dot sq (@Iso3.rot K (fieldNum K sq) m (bv j)) (k + 2)] at hj
+    exact hj
+  obtain ⟨p, p1, p2, p3, p4⟩ := prisms_meet_par sq (bv k) (bv (k + 1)) (bv (k + 2))
+    (@Iso3.rot K (fieldNum K sq) m (bv l)) (@Iso3.rot K (fieldNum K sq) m (bv (l + 1)))
+    (@Iso3.rot K (fieldNum K sq) m (bv (l + 2))) m.t (comp he1 k) (comp he1 (k + 1)) (comp he1 (k + 2))
+    (comp he2 l) (comp he2 (l + 1)) (comp he2 (l + 2)) (h1 _) (h1 _) (h2 _) (h2 _)
+    (parseval_bv sq k) fu1 fu2
+    (by rw [frame_dot sq m _ _ h, if_pos rfl])
+    (by rw [frame_dot sq m _ _ h, if_neg l1]) (by rw [frame_dot sq m _ _ h, if_neg l2])
+    (by rw [frame_dot sq m _ _ h, if_pos rfl]) (by rw [frame_dot sq m _ _ h, if_pos rfl])
+    (by rw [frame_dot sq m _ _ h, if_neg l12])
+    (convA _ A1) (convA _ A2) (convB _ B1) (convB _ B2)
+  refine ⟨p, ?_, ?_⟩
+  · intro k' hk'
+    rcases other_two k k' hk' with rfl | rfl
+    · rw [comp_dot sq]; exact p1
+    · rw [comp_dot sq]; exact p2
+  · intro l' hl'
+    rcases other_two l l' hl' with rfl | rfl
+    · rw [invAct_comp sq m p _ h]; exact p3
+    · rw [invAct_comp sq m p _ h]; exact p4
+
 /-! ## Link to the code: `intersection_test_cuboid_cuboid` (dim3) -/
 
 private theorem inverse_invRot' (m : Iso3 K) (v : V3 K) :
@@ -524,18 +686,17 @@ private theorem edge_mem (m : Iso3 K) (k l : Fin 3) :
   rw [satEdgeAxes_table sq m]
   fin_cases k <;> fin_cases l <;> simp [bv]
 
-/-- **Completeness of the fifteen axes, in general position** (`_partial`; the full statement is
-`intersectionTestCuboidCuboid_true_full`).  If `intersection_test_cuboid_cuboid` returns `true` and each of the nine
-candidate edge axes `e_k × pos12·e_l` is long enough to be tested by the code (`norm > f64::EPSILON`: no edge of
-cuboid 2 parallel, or within EPSILON of parallel, to an edge of cuboid 1), then some point of cuboid 2 (posed by
-`pos12`) lies in cuboid 1.
-**Gap**: when `e_k × pos12·e_l` is (nearly) zero the code skips that axis; for an exactly zero cross product the two
-prisms are parallel and meet by the planar theorem `rect_rect_complete` applied to their cross-sections (not
-formalised here); for a non-zero cross product of norm `≤ EPSILON` the code's verdict `true` can be wrong by a gap of
-that order, so the hypothesis cannot be dropped entirely. -/
+/-- **Completeness of the fifteen axes** (`_partial`: the hypothesis `hgen` is the named gap).
+If `intersection_test_cuboid_cuboid` returns `true` and each of the nine candidate edge axes `e_k × pos12·e_l` is
+either exactly zero (parallel edges — the code skips it, rightly) or long enough to be tested by the code
+(`norm > f64::EPSILON`), then some point of cuboid 2 (posed by `pos12`) lies in cuboid 1.  Axis-aligned and generic
+rotations are both covered.
+**Gap**: an edge pair whose cross product is non-zero but of norm `≤ EPSILON` (edges within `2e-16` rad of parallel)
+is skipped by the code although it may be the only separating axis; `hgen` excludes exactly that. -/
 theorem intersectionTestCuboidCuboid_true_partial (m : Iso3 K) (he1 he2 : V3 K) (h : Unit3 m) (hs : LawfulSqrt sq)
     (h1 : ∀ k, 0 ≤ comp he1 k) (h2 : ∀ l, 0 ≤ comp he2 l)
-    (hgen : ∀ a ∈ @satEdgeAxes K (fieldNum K sq) m, @realEps K (fieldNum K sq) < @V3.norm K (fieldNum K sq) a)
+    (hgen : ∀ a ∈ @satEdgeAxes K (fieldNum K sq) m,
+      @V3.dot K (fieldNum K sq) a a = 0 ∨ @realEps K (fieldNum K sq) < @V3.norm K (fieldNum K sq) a)
     (ht : @intersectionTestCuboidCuboid K (fieldNum K sq) m he1 he2 = true) :
     CuboidsMeet sq he1 he2 m := by
   unfold intersectionTestCuboidCuboid at ht
@@ -557,14 +718,15 @@ theorem intersectionTestCuboidCuboid_true_partial (m : Iso3 K) (he1 he2 : V3 K) 
   rw [a0, a1, a2] at hA
   rw [b0, b1, b2, inverse_invRot', inverse_invRot', inverse_invRot'] at hB
   push Not at hA hB
-  apply cuboids_meet_of_quadruples sq m he1 he2 h h1 h2
-  · intro k
+  have HA : ∀ k, FaceA sq he1 he2 m k := by
+    intro k
     unfold FaceA
     fin_cases k
     · have := hA.1; simp [comp, bv] at this ⊢; linarith
     · have := hA.2.1; simp [comp, bv] at this ⊢; linarith
     · have := hA.2.2; simp [comp, bv] at this ⊢; linarith
-  · intro l
+  have HB : ∀ l, FaceB sq he1 he2 m l := by
+    intro l
     unfold FaceB
     have ti : ∀ j : Fin 3, comp (@Iso3.inverse K (fieldNum K sq) m).t j
         = -(@V3.dot K (fieldNum K sq) m.t (@Iso3.rot K (fieldNum K sq) m (bv j))) := by
@@ -578,39 +740,54 @@ theorem intersectionTestCuboidCuboid_true_partial (m : Iso3 K) (he1 he2 : V3 K) 
     · have := hB.1; rw [t0, abs_neg] at this; simp [comp, bv] at this ⊢; linarith
     · have := hB.2.1; rw [t1, abs_neg] at this; simp [comp, bv] at this ⊢; linarith
     · have := hB.2.2; rw [t2, abs_neg] at this; simp [comp, bv] at this ⊢; linarith
-  · intro k l
-    have hmem := edge_mem sq m k l
-    have hlong := hgen _ hmem
-    have hne : ¬ EdgeSep sq he1 he2 m (@V3.cross K (fieldNum K sq) (bv k) (@Iso3.rot K (fieldNum K sq) m (bv l))) := by
-      intro hE
-      exact hC ((satEdgeTwoway_pos_iff sq he1 he2 m).mpr ⟨_, hmem, hE⟩)
-    unfold EdgeSep at hne
-    have hsep := not_lt.mp (fun hp => hne ⟨hlong, hp⟩)
-    rw [satSepLine_fst sq he1 he2 m _ h] at hsep
-    have hρ : 0 < @V3.norm K (fieldNum K sq)
-        (@V3.cross K (fieldNum K sq) (bv k) (@Iso3.rot K (fieldNum K sq) m (bv l))) :=
-      lt_trans (realEps_pos sq) hlong
-    apply prismsMeet_of_edge sq m he1 he2 k l h h1 h2
-    · intro h0
-      have : @V3.norm K (fieldNum K sq) (@V3.cross K (fieldNum K sq) (bv k) (@Iso3.rot K (fieldNum K sq) m (bv l)))
-          = sq 0 := by
-        show sq _ = sq 0
-        rw [show @V3.normSq K (fieldNum K sq) _ = @V3.dot K (fieldNum K sq) _ _ from rfl, h0]
-      rw [this] at hρ
-      have := hs.sq_mul 0 le_rfl
-      have : sq 0 = 0 := by
-        rcases mul_eq_zero.mp this with h | h <;> exact h
-      rw [this] at hρ
-      exact lt_irrefl _ hρ
-    · apply axisOverlap_of_sdiv sq m he1 he2 _ _ hρ
-      unfold AxisOverlap
-      linarith
+  apply cuboids_meet_of_quadruples sq m he1 he2 h h1 h2 HA HB
+  intro k l
+  have hmem := edge_mem sq m k l
+  rcases hgen _ hmem with hzero | hlong
+  · exact prismsMeet_of_parallel sq m he1 he2 k l h h1 h2 hzero (HA _) (HA _) (HB _) (HB _)
+  have hne : ¬ EdgeSep sq he1 he2 m (@V3.cross K (fieldNum K sq) (bv k) (@Iso3.rot K (fieldNum K sq) m (bv l))) := by
+    intro hE
+    exact hC ((satEdgeTwoway_pos_iff sq he1 he2 m).mpr ⟨_, hmem, hE⟩)
+  unfold EdgeSep at hne
+  have hsep := not_lt.mp (fun hp => hne ⟨hlong, hp⟩)
+  rw [satSepLine_fst sq he1 he2 m _ h] at hsep
+  have hρ : 0 < @V3.norm K (fieldNum K sq)
+      (@V3.cross K (fieldNum K sq) (bv k) (@Iso3.rot K (fieldNum K sq) m (bv l))) :=
+    lt_trans (realEps_pos sq) hlong
+  apply prismsMeet_of_edge sq m he1 he2 k l h h1 h2
+  · intro h0
+    have : @V3.norm K (fieldNum K sq) (@V3.cross K (fieldNum K sq) (bv k) (@Iso3.rot K (fieldNum K sq) m (bv l)))
+        = sq 0 := by
+      show sq _ = sq 0
+      rw [show @V3.normSq K (fieldNum K sq) _ = @V3.dot K (fieldNum K sq) _ _ from rfl, h0]
+    rw [this] at hρ
+    have := hs.sq_mul 0 le_rfl
+    have : sq 0 = 0 := by
+      rcases mul_eq_zero.mp this with h | h <;> exact h
+    rw [this] at hρ
+    exact lt_irrefl _ hρ
+  · apply axisOverlap_of_sdiv sq m he1 he2 _ _ hρ
+    unfold AxisOverlap
+    linarith
 
-/-- the full completeness statement (no general-position hypothesis on the exactly parallel edge pairs): open -/
+/-- the hypotheses are satisfiable: an axis-aligned pose (every edge axis is zero or a unit vector) -/
+example : Unit3 (⟨0, 0, 0, 1, ⟨1, -2, 3⟩⟩ : Iso3 ℚ) ∧
+    ∀ a ∈ @satEdgeAxes ℚ (fieldNum ℚ id) (⟨0, 0, 0, 1, ⟨1, -2, 3⟩⟩ : Iso3 ℚ),
+      @V3.dot ℚ (fieldNum ℚ id) a a = 0 ∨ @realEps ℚ (fieldNum ℚ id) < @V3.norm ℚ (fieldNum ℚ id) a := by
+  refine ⟨by unfold Unit3; norm_num, ?_⟩
+  intro a ha
+  simp only [satEdgeAxes, Iso3.rot, Iso3.rotQ, Iso3.qv, V3.cross, V3.add, V3.smul, fieldNum_two,
+    List.mem_cons, List.not_mem_nil, or_false] at ha
+  have he : @realEps ℚ (fieldNum ℚ id) = (mkRat 1 4503599627370496 : ℚ) := rfl
+  have hn : ∀ v : V3 ℚ, @V3.norm ℚ (fieldNum ℚ id) v = v.x * v.x + v.y * v.y + v.z * v.z := fun _ => rfl
+  rcases ha with rfl | rfl | rfl | rfl | rfl | rfl | rfl | rfl | rfl <;>
+    first
+    | (left; simp only [V3.dot]; norm_num; done)
+    | (right; rw [he, hn, Rat.mkRat_eq_div]; norm_num)
+
+/-- the statement without the EPSILON hypothesis — NOT expected to hold (see the gap above); kept to name the gap -/
 def intersectionTestCuboidCuboid_true_full : Prop :=
   ∀ (m : Iso3 K) (he1 he2 : V3 K), Unit3 m → LawfulSqrt sq → (∀ k, 0 ≤ comp he1 k) → (∀ l, 0 ≤ comp he2 l) →
-    (∀ a ∈ @satEdgeAxes K (fieldNum K sq) m,
-      @V3.dot K (fieldNum K sq) a a = 0 ∨ @realEps K (fieldNum K sq) < @V3.norm K (fieldNum K sq) a) →
     @intersectionTestCuboidCuboid K (fieldNum K sq) m he1 he2 = true → CuboidsMeet sq he1 he2 m
 
 end C03
